@@ -43,9 +43,12 @@ def run_R(ck: Check):
     ck.function(UnpackInstruction.execute, 'pytezos.michelson.instructions.generic:UnpackInstruction.execute')
     n = P.selfcheck()      # oracle vs recorded artefacts; a mismatch is a harness crash
     ck.assume(f'R(C04): specs/pack.py reproduces {n} recorded artefacts of /repo/tests (mainnet big_map key hashes of int / string / '
-              'bytes / address keys and of one 4-comb, the packunpack.tz bytes); the sequence layout of combs of >= 4 elements is '
-              'taken from the property statement (no recorded PACK artefact of such a comb exists; the recorded key hash is the '
-              'nested form)')
+              'bytes / address keys and of one 4-comb, the packunpack.tz bytes)')
+    ck.assume('R(C04): Optimized vs Optimized_legacy is uncertain offline: the property statement says PACK writes combs of >= 4 '
+              'elements as sequences (Octez `Optimized`), which is what MichelsonType.pack()/PACK are held to here (own obligation '
+              'id ...comb_of_4_or_more_is_a_sequence); the only recorded artefact of such a comb, a mainnet big_map key hash, is the '
+              'NESTED form (Octez `Optimized_legacy`, used by hash_data and probably by pack_data), which pack(legacy=True) is held to; '
+              'UNPACK is required to read every comb notation')
     ck.assume('R(C04): UNPACK typing oracle = specs/pack.optimized, strict only where Octez certainly rejects (negative nat, mutez '
               'overflow, wrong literal kind / arity, wrong byte lengths, unordered set / map, bad base58); string charset, entrypoint '
               'charset, annotated data nodes, tx/zk-rollup address tags are left undecided (not judged)')
